@@ -403,6 +403,17 @@ func evalRejectUnwatched(c RejectCase) (info caseInfo, fail *vlib.Failure) {
 		if c.World == nil {
 			return info, vlib.Failf("harness-bug", "fs path needs a real world")
 		}
+		// A file that IS a valid encoding, but of a state no writer produced for these segment files
+		// (checksum-repaired damage: another deleted set, another id), is outside the property; on
+		// this path it would be handed to searches and background merges that rightly choke on it
+		// (bits beyond the segment's documents).  Not opened at all; the in-memory path judges what
+		// the loader exposes for such files.
+		for _, cd := range cands {
+			if cd.loadable == "maybe" {
+				info.Classes = append(info.Classes, "reject:fs-not-opened:valid-foreign-state")
+				return info, nil
+			}
+		}
 		if f := evalFS(c, snaps, checkOutcome); f != nil {
 			return info, f
 		}
